@@ -52,5 +52,5 @@ func padBytes(b []byte, size int) []byte {
 		panic("invalid byte size")
 	}
 	// append zeros to match the requested size
-	return append(b, make([]byte, size-l)...)
+	return append(make([]byte, size-l), b...)
 }
